@@ -4,7 +4,7 @@ import random
 RULE = ("each case takes a structure (repository proteins with their ligands and ions, cut-outs, chimeras) "
         "and a pose T = one of the 24 axis-permuting proper rotations x an integer milli-A translation "
         "(0, +-1..3 mA, multiples of the 2.51 A cell, 100-900 A, the limits of the coordinate field), "
-        "and runs both. Tier 1 (all structures): bond sets, protein and ion groups, desolvation terms, "
+        "and runs both (30 % of the cases with a parameter file that switches on common charge centres). Tier 1 (all structures): bond sets, protein and ion groups, desolvation terms, "
         "counts and buried fractions are equal after mapping back (exact tie guard on the 15/20 A "
         "cut-offs). Tier 2 (amino-acid structures): the program's own hydrogens are written back, moved "
         "with T and both frames are run with -k: every pKa and determinant equal to 1e-7. Tier 3 "
@@ -42,11 +42,11 @@ def setup(tier):
     contracts.import_all_propka()
 
 
-def replay_is_faithful(runT, moved, name, counts):
+def replay_is_faithful(runT, moved, name, counts, popts=()):
     """Does the moved run reproduce itself when its own hydrogens are supplied with -k?"""
     from .. import motion, obs, pdbio, sources
     withh, n, orphans = sources.with_hydrogens(moved, runT.rec["confs"][name]["hydrogens"])
-    rk = obs.run_single(pdbio.dump(withh), ["-k"])
+    rk = obs.run_single(pdbio.dump(withh), ["-k"] + list(popts))
     counts["pipeline_runs"] = counts.get("pipeline_runs", 0) + 1
     if rk.exc:
         return False
@@ -164,8 +164,17 @@ def run_case(case, tier):
     desc = sources.describe(recs)
     desc.update({"kind": case["kind"], "file": case.get("file"), "rot": rot, "trans": trans, "trans_kind": tkind})
     t0, tT = pdbio.dump(recs), pdbio.dump(moved)
-    run0 = obs.run_single(t0, with_atoms=True)
-    runT = obs.run_single(tT, with_atoms=True)
+    # the same parameter file in both frames: common charge centres (absolute positions summed over
+    # the atoms of a covalently coupled system), shared determinants, penalised groups kept
+    popts = []
+    if (case["kind"] == "file" and case["seed"].endswith(":1")) or (case["kind"] != "file" and rng.random() < 0.3):
+        ov = {"common_charge_centre": 1, "shared_determinants": rng.choice((0, 1)),
+              "remove_penalised_group": rng.choice((0, 1))}
+        popts = ["-p", util.write_cfg(ov)]
+        desc["params"] = ov
+        classes.append("params:common-charge-centre")
+    run0 = obs.run_single(t0, popts, with_atoms=True)
+    runT = obs.run_single(tT, popts, with_atoms=True)
     counts["pipeline_runs"] = 2
     if run0.exc or runT.exc:
         if run0.exc_type != runT.exc_type:
@@ -205,7 +214,7 @@ def run_case(case, tier):
             withh, n, orphans = sources.with_hydrogens(recs, mapped)
             from .c07 import hydrogen_contacts
             contacts = hydrogen_contacts(withh)
-            runk = obs.run_single(pdbio.dump(withh), ["-k"])
+            runk = obs.run_single(pdbio.dump(withh), ["-k"] + popts)
             counts["pipeline_runs"] += 1
             counts["second_stage_runs"] = counts.get("second_stage_runs", 0) + 1
             d2 = motion.max_pka_difference(runk, runT, back_key) if not runk.exc else float("inf")
@@ -217,7 +226,7 @@ def run_case(case, tier):
                 # a supplied hydrogen within 1.5 A of a second heavy atom is bonded to both by the
                 # distance rule: the -k re-run is not a faithful replay, nothing can be concluded
                 counts["second_stage_not_judged"] = counts.get("second_stage_not_judged", 0) + 1
-            elif d2 > 1e-7 and not replay_is_faithful(runT, moved, name, counts):
+            elif d2 > 1e-7 and not replay_is_faithful(runT, moved, name, counts, popts):
                 # feeding hydrogens back with -k does not even reproduce a run in its own frame
                 # (that is C07's subject): the instrument of this stage is broken, no verdict
                 counts["second_stage_not_judged"] = counts.get("second_stage_not_judged", 0) + 1
@@ -233,8 +242,8 @@ def run_case(case, tier):
         movedh = pdbio.move(withh, rot, trans)
         from .c07 import hydrogen_contacts
         if pdbio.fits(movedh) and hydrogen_contacts(withh) == 0:
-            k0 = obs.run_single(pdbio.dump(withh), ["-k"])
-            kT = obs.run_single(pdbio.dump(movedh), ["-k"])
+            k0 = obs.run_single(pdbio.dump(withh), ["-k"] + popts)
+            kT = obs.run_single(pdbio.dump(movedh), ["-k"] + popts)
             counts["pipeline_runs"] += 2
             counts["tier2"] = 1
             diffs = obs.compare_runs(k0, kT, map_b_to_a=back_key, tol=1e-7)
@@ -244,6 +253,11 @@ def run_case(case, tier):
                 viol.append({"cls": "pose-changes-pka-keep-protons", "msg": "with supplied hydrogens (-k): %s" % obs.brief(diffs, 4)})
     else:
         classes.append("hetero-structure-tier1-only")
+    if popts:
+        systems = {frozenset([g["label"]] + list(g["cov"])) for g in run0.rec["confs"][run0.rec["names"][0]]["groups"] if g["cov"]}
+        if len(systems) >= 2:
+            classes.append("common-charge-centre-with-2-coupled-systems")
+            counts["ccc_two_systems"] = 1
     classes.append("trans:" + tkind)
     classes.append("rot:" + ("identity" if rot == pdbio.IDENTITY else "nontrivial"))
     moving = rot != pdbio.IDENTITY or any(t % motion.CELL for t in trans)
@@ -262,4 +276,6 @@ def verdict(tier, counts, classes, nontrivial, results):
         reasons.append("no hydrogen compared between frames")
     if nontrivial < 8:
         reasons.append("fewer than 8 non-trivial cases")
+    if counts.get("ccc_two_systems", 0) == 0:
+        reasons.append("common charge centres never exercised with two covalently coupled systems")
     return reasons
